@@ -213,6 +213,9 @@ def dba(s, c, mask=None, samples=None, use_c=False, nb_initial_samples=None, **k
         else:
             c = get_good_c(s, mask, nb_initial_samples, use_c=use_c, **kwargs)
     t = len(c)
+    if use_c:
+        # The C code works on the raw buffer: make sure it is C contiguous
+        c = util_numpy.verify_np_array(c)
     assoctab = [[] for _ in range(t)]
     for idx, seq in enumerate(s):
         if mask is not None and not mask[idx]:
